@@ -1780,7 +1780,8 @@ def validate_toc_entries(
     """
     diagnostics: List[Diagnostic] = []
     associated_product_names = [product.name for product in associated_products]
-    for toc_entry in node_entries:
+    # Iterate over a copy: entries are removed from node_entries as we go
+    for toc_entry in list(node_entries):
         if (
             toc_entry.ref_project
             and toc_entry.ref_project not in associated_product_names
